@@ -26,10 +26,17 @@ def run(ctx):
              "accept loop are caught and recorded; non-trivial = a worker was killed in the run")
     import srvload
     srvload.run(ctx)
+    # end to end through the public API, every builder layout: the dispatch that finds the dead worker is re-routed (or
+    # dropped when it was the only worker) and the replacement builds one service per socket, each from its own factory
+    import srvbuilder
+    srvbuilder.run(ctx, n_quick=24)
 
 
 def replay(ctx, path):
     import json as _j
+    if _j.load(open(path))["replay"].get("mode") == "builder":
+        import srvbuilder
+        return srvbuilder.replay(ctx, path)
     if _j.load(open(path))["replay"].get("mode") == "e2e-load":
         import srvload
         return srvload.replay(ctx, path)
